@@ -59,13 +59,10 @@ func runC14(r *Run, rng *Rng, thorough bool) {
 				sg += fmt.Sprintf(" p%dset=%s p%dget=%s", pi+1, fmtErr(serr), pi+1, fmtErr(gerr))
 			}
 			// getter on a directly constructed claims-set holding v
-			var c2 psa.IClaims
-			vv := v
-			if pi == 0 {
-				c2 = &psa.P1Claims{SecurityLifeCycle: &vv, CanonicalProfile: psa.Profile1Name}
-			} else {
-				c2 = &psa.P2Claims{SecurityLifeCycle: &vv, CanonicalProfile: psa.Profile2Name}
-			}
+			// getter on a directly constructed claims-set holding v (built by field name: the check
+			// must still build when the field's type changes)
+			dd := ClaimsDesc{P: pi + 1, Canon: canonOf(pi + 1), LC: u16p(v), SwKind: SwNilIface}
+			c2 := dd.Build()
 			g2, g2err := c2.GetSecurityLifeCycle()
 			accept[pi*2+1] = g2err == nil
 			got[pi*2+1] = g2
